@@ -375,6 +375,12 @@ class FakeSelector(selectors._BaseSelectorImpl):  # noqa: SLF001
     def select(self, timeout: float | None = None) -> list[tuple[selectors.SelectorKey, int]]:
         sim = self.sim
         net = sim.net
+        if sim.suspend_until is not None and sim.clock >= sim.suspend_from:
+            # the process was stopped (SIGSTOP, VM pause, a blocked loop) from suspend_from to suspend_until: the world went on - peers wrote, the
+            # kernel queued - and the loop sees all of it, and every timer that fell due meanwhile, in ONE iteration after waking up
+            if sim.suspend_until > sim.clock:
+                sim.clock = sim.suspend_until
+            sim.suspend_until = None
         net.apply_due()
         ready = self._ready()
         if ready or (timeout is not None and timeout <= 0) or sim.loop._ready:  # noqa: SLF001
@@ -443,6 +449,19 @@ class SimTransport(selector_events._SelectorSocketTransport):  # noqa: SLF001
         super()._call_connection_lost(exc)
 
 
+class SimTimerHandle(aio_events.TimerHandle):
+    """A TimerHandle that notes, in the simulation's event order, that it ran (boundary fact: which timers fired before / after an I/O event of
+    the same loop iteration)."""
+
+    __slots__ = ()
+
+    def _run(self) -> None:
+        sim = getattr(self._loop, "sim", None)
+        if sim is not None:
+            sim.timer_fired.append((sim.next_seq(), sim.clock, getattr(self._callback, "__qualname__", None) or type(self._callback).__name__))
+        super()._run()
+
+
 class SimLoop(asyncio.SelectorEventLoop):
     def __init__(self, sim: Any) -> None:
         self.sim = sim
@@ -450,6 +469,15 @@ class SimLoop(asyncio.SelectorEventLoop):
 
     def time(self) -> float:
         return self.sim.clock
+
+    def call_at(self, when: float, callback: Any, *args: Any, context: Any = None) -> Any:   # BaseEventLoop.call_at with the logging handle class
+        self._check_closed()
+        timer = SimTimerHandle(when, callback, args, self, context)
+        if timer._source_traceback:  # noqa: SLF001
+            del timer._source_traceback[-1]  # noqa: SLF001
+        heapq.heappush(self._scheduled, timer)
+        timer._scheduled = True  # noqa: SLF001
+        return timer
 
     async def getaddrinfo(self, host: Any, port: Any, *, family: int = 0, type: int = 0, proto: int = 0,  # noqa: A002
                           flags: int = 0) -> Any:
